@@ -416,6 +416,47 @@ F("remove_loop_pads_rows", [(DB, "            for i, item in enumerate(self._sto
                              "            for i, item in enumerate(map(list, self._storage)):\n                if j == len(index_rst._items) or i not in index_rst._items:\n                    self._storage.append([item], temporary=True)", 0)],
   ["C02", "C03", "C04", "C05", "C01", "C07"], ["C06", "C10", "C15", "C12"])
 
+# ---- round 8: first-order mutants that survive the test suite (operator / constant / statement level)
+F("update_candidate_counter_step_two", [(DB, "                    self._storage.append([item], temporary=True)\n                j += 1\n",
+                                         "                    self._storage.append([item], temporary=True)\n                j += 2\n", 0)], ["C03"])
+F("remove_new_position_step_two", [(DB, "                    new_position += 1\n", "                    new_position += 2\n", 0)],
+  ["C02", "C06", "C01", "C07"])
+F("remove_scan_keep_not_counted", [(DB, "                else:\n                    self._storage.append([item], temporary=True)\n                    keep_count += 1\n",
+                                    "                else:\n                    self._storage.append([item], temporary=True)\n                    keep_count += 0\n", 0)],
+  ["C02", "C06", "C01", "C07"])
+F("getter_filter_without_unset_case", [(DB, "if measurement and self._storage._deserialize_measurement(item) != measurement:\n                continue\n",
+                                        "if self._storage._deserialize_measurement(item) != measurement:\n                continue\n", 2)],
+  ["C07", "C10"], ["C01"])
+F("getter_filter_breaks_scan", [(DB, "if measurement and self._storage._deserialize_measurement(item) != measurement:\n                continue\n",
+                                 "if measurement and self._storage._deserialize_measurement(item) != measurement:\n                break\n", 2)],
+  ["C07", "C10"], ["C01"])
+F("remove_tags_stops_at_empty_bucket", [(IDX, "                if not new_items:\n                    continue\n",
+                                         "                if not new_items:\n                    break\n", 0)], ["C06", "C02", "C01", "C07", "C10"])
+F("remove_tags_drops_first_value", [(IDX, "                if tag_key not in new_tags:\n                    new_tags[tag_key] = {value: new_items}\n                else:\n                    new_tags[tag_key][value] = new_items\n",
+                                     "                if tag_key not in new_tags:\n                    pass\n                else:\n                    new_tags[tag_key][value] = new_items\n", 0)],
+  ["C06", "C02", "C01", "C07", "C10"])
+F("remove_tags_keeps_the_removed", [(IDX, "new_items = [i for i in old_items if i not in r_items]", "new_items = [i for i in old_items if i in r_items]", 0)],
+  ["C06", "C02", "C01", "C07", "C10"])
+F("remove_fields_filters_by_value", [(IDX, "new_items = [i for i in old_items if i[0] not in r_items]", "new_items = [i for i in old_items if i[1] not in r_items]", 0)],
+  ["C06", "C02", "C01", "C07", "C10"])
+F("field_values_filtered_by_value", [(IDX, "field_values = [i[1] for i in items if i[0] in measurement_items]",
+                                      "field_values = [i[1] for i in items if i[1] in measurement_items]", 0)], ["C07", "C10", "C06", "C01"])
+F("latest_time_reads_first_entry", [(IDX, "self._timestamps[-1]", "self._timestamps[-0]", 0)], ["C06", "C01", "C02", "C03"])
+F("cleanup_only_without_temp", [(ST, "        if self._temp_handle is not None:\n            name = self._temp_handle.name",
+                                 "        if self._temp_handle is None:\n            name = self._temp_handle.name", 0)], ["C15"])
+F("cleanup_removes_only_missing_file", [(ST, "            if os.path.exists(name):\n                os.remove(name)\n",
+                                         "            if not os.path.exists(name):\n                os.remove(name)\n", 0)], ["C15"])
+F("reopen_mode_not_a_mode", [(ST, "mode='r+' if self._mode in ('w', 'w+') else self._mode", "mode='r+x' if self._mode in ('w', 'w+') else self._mode", 0)],
+  ["C04", "C12", "C13", "C01", "C02", "C03", "C06", "C16"])
+F("field_validation_stops_at_none", [(PT, "        if i is None:\n            continue\n", "        if i is None:\n            break\n", 0)], ["C14"])
+F("regex_true_on_non_string", [(QR, "            if not isinstance(value, str):\n                return False\n",
+                                "            if not isinstance(value, str):\n                return True\n", 1)], ["C09"])
+F("get_measurements_scan_collects_nothing", [(DB, "            names.add(self._storage._deserialize_measurement(item))\n", "            pass\n", 0)], ["C07"])
+S("remove_candidate_counter_never_advances", [(DB, "                removed_items.add(i)\n                j += 1\n", "                removed_items.add(i)\n                j += 0\n", 0)],
+  note="equivalent: the early-exit test never fires, `i not in items` decides alone")
+S("remove_keep_counter_counts_double", [(DB, "                    new_position += 1\n                    keep_count += 1\n", "                    new_position += 1\n                    keep_count += 2\n", 0)],
+  note="equivalent: only the truthiness of the keep counter is used")
+
 # ----------------------------------------------------------------- property dependencies
 # A breach of a discipline is reported under every property it is a necessary condition of
 # (e.g. a stale-but-valid index breaks C06 and therefore also the index-served answers of C01/C07;
